@@ -1111,6 +1111,14 @@ class BlockwiseRequest(BaseUnicastRequest, interfaces.Request):
     ):
         # FIXME this can probably be deduplicated against BlockwiseRequest
 
+        if initial_response.opt.block2 is not None:
+            requested = request_to_repeat.opt.block2
+            if initial_response.opt.block2.start != (
+                requested.start if requested is not None else 0
+            ):
+                log.error("Error assembling blockwise response (unexpected block)")
+                raise error.UnexpectedBlock2("Block number mismatch")
+
         if (
             initial_response.opt.block2 is None
             or initial_response.opt.block2.more is False
